@@ -254,7 +254,9 @@ fn process_job(job: &Value, seed: u64, vectors: usize, ample_gas: usize) -> Vec<
                 traces.push(ev);
             }
         }
-    } else if let Some(b) = &b {
+    }
+    let generic_too = job.get("explicit").is_none() || job.get("also_generic").and_then(|x| x.as_bool()).unwrap_or(false);
+    if let (Some(b), true) = (&b, generic_too) {
         if job.get("run").and_then(|x| x.as_bool()).unwrap_or(true) {
             let max_funcs = job.get("max_funcs").and_then(|x| x.as_u64()).unwrap_or(6) as usize;
             run_program(&id, &program, b, linear, vectors, &mut rng, &mut traces, max_funcs, ample_gas);
